@@ -64,6 +64,12 @@ CLAIMED = {
  "C13": dict(text="Bounded model checking of the key-derivation constructions with SHA-512 / BLAKE2b / Argon2 as transcript stubs and curve operations as contract stubs: box seed (every listed seed length), kx seed, sign seed, from_secret_key, derive_keypair, "
                   "Ed25519->X25519 secret and public key conversion (Err exactly when the point does not decode).",
              ref="DESIGN.md 5/C13", technique="Kani->CBMC bounded model checking with hash-transcript and curve contract stubs; native replay against libsodium's constructions via ctypes"),
+ "C01": dict(text="Bounded model checking at literal (key, nonce) instances with symbolic messages: secretbox == the NaCl construction byte for byte (keystream from the harness's own XSalsa20), combined / in-place / afternm / box / object-API forms produce identical bytes, "
+                  "box key = HSalsa20(X25519, 0), round trips; sealed-box layout and key/nonce derivation inputs fully symbolic; sealed-box nonce = BLAKE2b-24(epk || rpk) via the compress transcript.",
+             ref="DESIGN.md 5/C01", technique="Kani->CBMC bounded model checking with an ideal-MAC stub and a differential XSalsa20/HSalsa20 reference at literal keys; native replay against libsodium"),
+ "C09": dict(text="Kernels for all inputs by MIR->z3: fill_block == RFC 9106 G with BlaMka (3 x 1 KiB symbolic), index_alpha == RFC 9106 3.4.1.2 for every 32-bit J1 over all position classes of small segments; drivers by Kani/CBMC: H' chain structure for literal output lengths, "
+                  "crypto_pwhash range validation and untruncated cost forwarding for symbolic (opslimit, memlimit), PwHash::verify. The argon2_hash block schedule as a whole is NOT claimed (see evidence: outside_the_claim).",
+             ref="DESIGN.md 5/C09", technique="MIR->SMT symbolic execution (z3 bit-vectors) for the Argon2 kernels + Kani->CBMC bounded model checking with BLAKE2b-compress / Argon2 stubs for the drivers", engine="e2-mir-smt + e1-kani-cbmc"),
 }
 NA = {
  "C18": "Backends in question are assembly (sha2/asm), run-time-selected vendor intrinsics (dalek AVX2) and std::simd; none has a MIR/GOTO encoding Kani accepts and the two BLAKE2b compress variants are mutually exclusive cfg alternatives; see DESIGN.md section 6.",
